@@ -17,8 +17,13 @@ def register(reg):
     iface.register(reg)
     for m in MODULES:
         m.register(reg)
-        for k in ("LEVEL", "EXPLAIN", "BOUNDED", "REPLAY"):
+        for k in ("LEVEL", "EXPLAIN", "REPLAY"):
             globals()[k].update(getattr(m, k, {}))
+        for p, lst in getattr(m, "BOUNDED", {}).items():
+            BOUNDED.setdefault(p, [])
+            for b in lst:
+                if b not in BOUNDED[p]:
+                    BOUNDED[p].append(b)
         for p, lst in getattr(m, "ASSUMPTIONS", {}).items():
             ASSUMPTIONS.setdefault(p, [])
             for x in lst:
